@@ -34,25 +34,30 @@ const (
 
 // pkgSSAFuncs: every SSA function (declared, init#N, closures) of module package rel, sorted.
 func (w *World) pkgSSAFuncs(rel string) []*ssa.Function {
-	var out []*ssa.Function
-	for fn := range ssautil.AllFunctions(w.SSA()) {
-		root := fn
-		for root.Parent() != nil {
-			root = root.Parent()
+	if w.pkgFns == nil {
+		w.pkgFns = map[string][]*ssa.Function{}
+		for fn := range ssautil.AllFunctions(w.SSA()) {
+			root := fn
+			for root.Parent() != nil {
+				root = root.Parent()
+			}
+			if root.Pkg == nil || root.Pkg.Pkg == nil || !strings.HasPrefix(root.Pkg.Pkg.Path(), modPath+"/") {
+				continue
+			}
+			if fn.Pos().IsValid() && isTestFile(w.Fset, fn.Pos()) {
+				continue
+			}
+			if len(fn.Blocks) == 0 {
+				continue
+			}
+			k := strings.TrimPrefix(root.Pkg.Pkg.Path(), modPath+"/")
+			w.pkgFns[k] = append(w.pkgFns[k], fn)
 		}
-		if root.Pkg == nil || root.Pkg.Pkg == nil || root.Pkg.Pkg.Path() != modPath+"/"+rel {
-			continue
+		for _, fs := range w.pkgFns {
+			sort.Slice(fs, func(i, j int) bool { return fnName(fs[i]) < fnName(fs[j]) })
 		}
-		if fn.Pos().IsValid() && isTestFile(w.Fset, fn.Pos()) {
-			continue
-		}
-		if len(fn.Blocks) == 0 {
-			continue
-		}
-		out = append(out, fn)
 	}
-	sort.Slice(out, func(i, j int) bool { return fnName(out[i]) < fnName(out[j]) })
-	return out
+	return w.pkgFns[rel]
 }
 
 // ---------- kernel tables ----------
